@@ -16,3 +16,29 @@ func VH_C10_ReadCertChainSymbolic() {
 	p := vh.Try(func() { ReadCertChain(bytes.NewReader(in)) })
 	vh.Assert(!p, "ReadCertChain does not panic")
 }
+
+// VH_C10_ReadCertChainCounts: ReadCertChain on inputs that get PAST the magic string: an array head in every form
+// (short 0x80..0x97, or 0x98/0x99/0x9a/0x9b with 1/2/4/8 SYMBOLIC count bytes - every declared element count up to
+// 2^64-1), the correct magic text string, then a map head in every form with symbolic count bytes and 0..3 further
+// symbolic bytes: never panics, allocation bounded by 4096 elements whatever the declared counts say.
+func VH_C10_ReadCertChainCounts() {
+	vh.AllocCap(4096)
+	head := func(tag string, major byte) []byte {
+		k := vh.Choose(5)
+		if k == 0 {
+			b := vh.Byte(tag + ".short")
+			vh.Assume(b < 24)
+			return []byte{major<<5 | b}
+		}
+		n := []int{1, 2, 4, 8}[k-1]
+		return append([]byte{major<<5 | byte(23+k)}, vh.Bytes(tag, n)...)
+	}
+	in := head("acount", 4)
+	in = append(in, 0x67, 0xf0, 0x9f, 0x93, 0x9c, 0xe2, 0x9b, 0x93) // "📜⛓"
+	if vh.Choose(2) == 1 {
+		in = append(in, head("mcount", 5)...)
+		in = append(in, vh.Bytes("rest", vh.Choose(4))...)
+	}
+	p := vh.Try(func() { ReadCertChain(bytes.NewReader(in)) })
+	vh.Assert(!p, "ReadCertChain does not panic whatever element counts the input declares")
+}
